@@ -121,10 +121,13 @@ end NM
 
 /-! ### ornementation.py : the builders -/
 
-def accent (x : NM) : NM :=
+def accent (x : NM) : Res NM :=
   match x with
-  | .note n => .note { n with amp := if 120 ≤ n.amp + 10 then 120 else n.amp + 10 }
-  | .mel ns => .mel ns          -- sets an attribute `amp` on the Melody object, notes untouched
+  | .note n => .ok (.note { n with amp := if 120 ≤ n.amp + 10 then 120 else n.amp + 10 })
+  -- on a Melody `new_note.amp` is a melody of amplitudes (`Melody.__getattr__`), `+ 10` on it is `None`
+  -- (`Melody.__add__` falls through) and `min(120, None)` raises; never reached from `realize_tags`, where
+  -- `accent` is the first step and runs on `note.copy()`
+  | .mel _ => .error .type
 
 /-- common body of the four mordants (`aux` is `su1`, `sd1`, `hu1`, `hd1`) -/
 def mordantWith (rd : Rat → Rat) (aux : Note) (x : NM) : Res NM :=
@@ -250,7 +253,7 @@ def stepIf (c : Bool) (f : NM → Res NM) (x : NM) : Res NM := if c then f x els
 
 /-- the fifteen `if`s in the code's order -/
 def steps (rd : Rat → Rat) (tags : List String) (last next : Option Note) : List (NM → Res NM) :=
-  [ stepIf (tags.contains "accent") (fun x => pure (accent x)),
+  [ stepIf (tags.contains "accent") accent,
     stepIf (tags.contains "mordant") (mordant rd),
     stepIf (tags.contains "inv_mordant") (invMordant rd),
     stepIf (tags.contains "chroma_mordant") (chromaMordant rd),
